@@ -2472,9 +2472,15 @@ impl<'a, B: Bindgen> Generator<'a, B> {
                     self.emit(&GuestDeallocateVariant { blocks: 2 });
                 }
 
+                // Flags may be spread over several flat operands, discard
+                // all of them.
+                TypeDefKind::Flags(_) => {
+                    let flat = flat_types(self.resolve, ty, None).unwrap().len();
+                    self.stack.truncate(self.stack.len() - flat);
+                }
+
                 // discard the operand on the stack, otherwise nothing to free.
-                TypeDefKind::Flags(_)
-                | TypeDefKind::Enum(_)
+                TypeDefKind::Enum(_)
                 | TypeDefKind::Future(_)
                 | TypeDefKind::Stream(_)
                 | TypeDefKind::Handle(Handle::Own(_))
